@@ -126,6 +126,21 @@ def predicates(rng, tier, only=None):
     for v, r, s in combos:
         h = rng.choice([bytes(rng.randrange(256) for _ in range(32)), b"\x00" * 32, N_.to_bytes(32, "big")])
         ps.append(Pred("recover-sound", recover_pred, (h, v, r, s)))
+    # inputs in a special algebraic relation: s*R and -z*G are the SAME point (z = -s*k with R = k*G: the recovery adds a point to
+    # itself in two different Jacobian representations — a doubling inside jacobian_add), or INVERSE points (z = s*k: the sum is
+    # infinity and the determined key is the identity), or differ by the order-3 automorphism (same y, other x)
+    lam = O.cube_root_of_unity(N_)
+    for _ in range(2 if tier == "quick" else 12):
+        k = rng.randrange(1, N_)
+        R = O.aff_mul(G(), k)
+        r = R[0].v
+        if not 0 < r < N_:
+            continue
+        v = 28 if R[1].v % 2 else 27
+        for s_ in (1, rng.randrange(1, N_)):
+            for z in ((-s_ * k) % N_, (s_ * k) % N_, (-s_ * k * lam) % N_, (s_ * k * lam) % N_):
+                ps.append(Pred("recover-sound", recover_pred, (z.to_bytes(32, "big"), v, r, s_)))
+                ps.append(Pred("recover-sound", recover_pred, (z.to_bytes(32, "big"), 55 - v, r, s_)))
     if only:
         ps = [p for p in ps if p.name == only]
     return ps
